@@ -15,6 +15,23 @@ CHECKS = {
              "lexer for drop detection, junk-suffix metamorphic relation, sanitizers, bounded native stack). Finds violations; does not establish absence.",
         note="trusts ASan/UBSan and the harness lexer (common/parse_oracle.hpp); over-reads of exactly one byte past a std::string are invisible",
         design="4/C01"),
+    "C16": dict(
+        engine="hypothesis-runner",
+        category="exploration",
+        technique="property-based testing (Hypothesis) against a reference literal decoder / C++ typing ladder; exhaustive boundary grid; keyword hash-collider search at check time",
+        text="Exhaustive integer boundary grid (base x suffix x 2^k+-1) plus random literals compared with the C++ typing ladder; random float "
+             "spellings vs correctly rounded values (16 ulp); strings/chars over an escape alphabet vs an independent decoder (REJECT must raise "
+             "eval_error); identifiers colliding with keyword hashes are searched with the tree's own hash function and must behave as ordinary names.",
+        note="trusts numpy/Python float parsing as the correctly-rounded reference and the reference decoder in props/c16.py; LP64 widths",
+        design="4/C16"),
+    "C17": dict(
+        engine="hypothesis-runner",
+        category="exploration",
+        technique="property-based testing (Hypothesis) against Python functional specifications of each prelude function",
+        text="Generated (function, container, callback, numeric argument) cases; result, callback trace (order, once per element, short-circuit) "
+             "and input integrity compared with a Python specification.",
+        note="specifications are mine, written from the prelude's comments and names; runner output rendering is trusted",
+        design="4/C17"),
 }
 
 PENDING_REASON = "check not built yet in this round (planned, see DESIGN.md section 4); not claimed until its machinery exists and is calibrated"
